@@ -3,6 +3,7 @@
   Imports only import-free model modules (no Mathlib), so it links as a `lean_exe`.
 -/
 import WowVerif.Model.Dispatch04
+import WowVerif.Model.Dispatch17
 
 open Wv Wv.Drv
 
@@ -11,7 +12,7 @@ structure St where
 
 def step (st : St) (line : String) : St × String :=
   let toks := (line.trimAscii.toString.splitOn " ").filter (· ≠ "")
-  match c04 toks with
+  match (c04 toks).orElse (fun _ => c17 toks) with
   | some r => (st, r)
   | none => (st, "bad-op")
 
